@@ -484,6 +484,10 @@ class Diagram(rigid.Diagram):
         return monoidal.Diagram.swap(
             left, right, ar_factory=Diagram, swap_factory=Swap)
 
+    @staticmethod
+    def permutation(perm, dom=None):
+        return monoidal.Diagram.permutation(perm, dom, ar_factory=Diagram)
+
     def grad(self, var, **params):
         """ Gradient with respect to :code:`var`. """
         if var not in self.free_symbols:
